@@ -226,7 +226,7 @@ func (rn *runner) stable(html string) bool {
 
 // attribute names the known order-dependence an unstable document falls under, by ablation:
 //
-//	"out-of-flow-order"  (KF15-2) at least two floats / absolutely positioned boxes, and the document with
+//	"out-of-flow-order"  (KF15-2) at least one float / absolutely positioned box, and the document with
 //	                     all of them put back in flow renders identically 6 times;
 //	"grid-item-order"    (KF15-3) a grid container, and the document with display:grid replaced by
 //	                     display:block renders identically 6 times;
@@ -236,7 +236,7 @@ func (rn *runner) attribute(d Doc) string {
 	if v, ok := rn.attrCache[d.HTML]; ok {
 		return v
 	}
-	hasOOF := len(oofRe.FindAllStringIndex(d.HTML, 2)) >= 2
+	hasOOF := oofRe.MatchString(d.HTML) // one float can be entered twice in brokenOutOfFlow (it is then drawn twice: C02)
 	hasGrid := gridRe.MatchString(d.HTML)
 	v := ""
 	switch {
